@@ -463,7 +463,8 @@ def run_cases(ctx, exe, cases, cnt, var, cov, dist, distinct, nested=False):
             for sig, bl in groups.items():
                 dist["signatures"][sig] = dist["signatures"].get(sig, 0) + 1
                 cjs = cj
-                if not nested and sig not in getattr(ctx, "shrunk_sigs", set()) and len(getattr(ctx, "shrunk_sigs", set())) < 2 \
+                if not nested and not c.get("longpath") and sig not in getattr(ctx, "shrunk_sigs", set()) \
+                        and len(getattr(ctx, "shrunk_sigs", set())) < 2 \
                         and not any(fd["property"] == ctx.prop and fd.get("status") == "open" and
                                     re.fullmatch(fd["signature"], sig) for fd in ctx.findings.get("findings", [])):
                     ctx.shrunk_sigs = getattr(ctx, "shrunk_sigs", set()) | {sig}
